@@ -19,7 +19,8 @@ import tempfile
 from concurrent.futures import ThreadPoolExecutor
 from datetime import datetime, timedelta, timezone
 
-from . import common
+from . import c14_gen, common
+from .c14_gen import data_dir, fingerprint, legacy_prints, listing  # noqa: F401 -- shared with the child
 from .common import Check, sx
 from .evutil import BASE
 
@@ -58,37 +59,12 @@ def child(mode, req, tmp):
     return json.loads(p.stdout)
 
 
-def data_dir(xdg):
-    return os.path.join(xdg, "xdg_data_home", "activitywatch", "aw-server")
-
-
 def pw_file(testing):
     return "peewee-sqlite" + ("-testing" if testing else "") + ".v2.db"
 
 
 def sq_file(testing):
     return "sqlite" + ("-testing" if testing else "") + ".v1.db"
-
-
-def fingerprint(path):
-    b = open(path, "rb").read()
-    st = os.stat(path)
-    return {"sha256": hashlib.sha256(b).hexdigest(), "size": len(b), "mtime_ns": st.st_mtime_ns}
-
-
-def legacy_prints(xdg):
-    d = data_dir(xdg)
-    out = {}
-    if os.path.isdir(d):
-        for f in sorted(os.listdir(d)):
-            if f.startswith("peewee") and os.path.isfile(os.path.join(d, f)):
-                out[f] = fingerprint(os.path.join(d, f))
-    return out
-
-
-def listing(xdg):
-    d = data_dir(xdg)
-    return sorted(os.listdir(d)) if os.path.isdir(d) else []
 
 
 # ---------------------------------------------------------------------------
@@ -161,9 +137,142 @@ def gen_store(rng, big=False):
     return ops
 
 
-def mk_case(kind, new_testing, stores, custom=None, pre_sqlite=False, stray=()):
-    return {"kind": kind, "new_testing": new_testing, "stores": stores, "custom": custom,
-            "pre_sqlite": pre_sqlite, "stray": list(stray)}
+def mk_case(kind, new_testing, stores, custom=None, pre_sqlite=False, stray=(), session=None):
+    c = {"kind": kind, "new_testing": new_testing, "stores": stores, "custom": custom,
+         "pre_sqlite": pre_sqlite, "stray": list(stray)}
+    if session is not None:
+        c["session"] = session
+    return c
+
+
+# -- large buckets (the copy may read a bucket in several pieces: by count, by instant, by day ..) ----------
+
+
+def gen_op(b, n, seed, kind="dense", step_ms=1000, off_ms=0, order="asc"):
+    return ["insert_gen", b, {"kind": kind, "n": n, "seed": seed, "step_ms": step_ms, "off_ms": off_ms, "order": order}]
+
+
+def case_events(case):
+    return sum(c14_gen.spec_events(o) for s in case["stores"] for o in s["ops"])
+
+
+def big_store(rng, n, kind="dense"):
+    """one large bucket, dense everywhere (c14_gen), written in 1-3 pieces in some row order, between 0-2 small
+    buckets; now and then one edit so that the row ids have a hole"""
+    ids = rng.sample(IDS[:7], 3)
+    b = ids[0]
+    step = rng.choice([1000, 1000, 1000, 1, 250, 60_000]) if kind == "dense" else rng.choice([7, 21, 24]) * 3_600_000
+    ops = []
+    before = rng.choice([0, 1])
+    after = rng.choice([0, 1])
+    if before:
+        ops.append(create(ids[1], na="small-before", da={"k": "v"}))
+        ops.append(["insert_many", ids[1], events(rng, 3)])
+    ops.append(create(b, rng.choice(STRS), rng.choice(STRS), rng.choice(STRS), rng.choice(CREATED),
+                      rng.choice(NAMES), rng.choice(BDATA)))
+    if after:
+        ops.append(create(ids[2], na="small-after"))
+    pieces = rng.choice([1, 1, 2, 3])
+    left = n
+    for k in range(pieces):
+        m = left if k == pieces - 1 else max(1, rng.randrange(1, max(2, left // 2)))
+        # later pieces lie inside the range of the first one, on a coarser grid: more ties and overlaps
+        ops.append(gen_op(b, m, rng.randrange(1 << 30), kind, step * (1 if k == 0 else 3), 0 if k == 0 else step * 7,
+                          rng.choice(["asc", "desc", "shuffle", "blocks"])))
+        left -= m
+        if left <= 0:
+            break
+    if after:
+        ops.append(["insert_many", ids[2], events(rng, 2)])
+    if n <= 8000 and rng.random() < 0.5:
+        ops.append(["delete", b, rng.randrange(0, n)])
+        ops.append(["replace", b, rng.randrange(0, n), ev(rng, [0, 1000, 5500])])
+    return ops
+
+
+def big_cases(rng, tier):
+    if tier == "quick":
+        sizes = [rng.randrange(10_001, 22_000), rng.randrange(5_001, 7_500), rng.randrange(1_100, 2_400)]
+    else:
+        sizes = [70_001, 50_001, 32_769, 20_001, 16_385, 10_001, 10_000, 8_193, 5_001, 5_000, 4_999, 4_097, 2_500,
+                 1_001, 1_000, 999, 501] + [rng.randrange(1_000, 40_000) for _ in range(7)]
+    out = []
+    for n in sizes:
+        t = rng.random() < 0.5
+        out.append(mk_case("big-dense", t, [{"testing": t, "ops": big_store(rng, n)}]))
+    wide = [rng.randrange(300, 900)] if tier == "quick" else [400, 1200, 3000]
+    for n in wide:
+        t = rng.random() < 0.5
+        out.append(mk_case("wide-span", t, [{"testing": t, "ops": big_store(rng, n, "wide")}]))
+    return out
+
+
+# -- several constructions in one process ---------------------------------------------------------------
+
+
+def sq_step(t, custom=None, close=False):
+    return {"op": "sqlite", "testing": t, "custom": custom, "close": close}
+
+
+def pw_step(t=None, file=None, touch=True, close=False):
+    return {"op": "peewee", "testing": t, "file": file, "touch": touch, "close": close}
+
+
+def two_stores(rng, t, n=4):
+    """legacy stores of both profiles that share one bucket id (different metadata and events) and each hold
+    one bucket of their own"""
+    return [{"testing": t, "ops": [create("shared", "ty-mine", na="mine", da={"p": str(t)}), create("only-" + str(t)),
+                                   ["insert_many", "shared", events(rng, n)], ["insert_many", "only-" + str(t), events(rng, 2)]]},
+            {"testing": not t, "ops": [create("shared", "ty-other", ho="devbox", cr=CREATED[2]), create("only-" + str(not t), da={"o": 1}),
+                                       ["insert_many", "shared", events(rng, n + 3)],
+                                       ["insert", "only-" + str(not t), ev(rng, [0, 1000])]]}]
+
+
+def session_corpus(rng):
+    out = []
+    for t in (True, False):
+        mine = [{"testing": t, "ops": [create("b", da={"k": "v"}), ["insert_many", "b", events(rng, 4)]]}]
+        other = [{"testing": not t, "ops": [create("other"), ["insert_many", "other", events(rng, 3)]]}]
+        for close in (False, True):
+            out.append(mk_case("session-both-profiles", not t, two_stores(rng, t), session=[sq_step(t, close=close), sq_step(not t)]))
+        out.append(mk_case("session-custom-then-both", not t, two_stores(rng, t),
+                           session=[sq_step(t, custom="custom.db"), sq_step(t), sq_step(not t, custom="custom2.db"), sq_step(not t)]))
+        out.append(mk_case("session-other-only-first", not t, other, session=[sq_step(t), sq_step(not t)]))
+        out.append(mk_case("session-peewee-other-open", t, mine + other, session=[pw_step(not t), sq_step(t)]))
+        out.append(mk_case("session-peewee-other-absent", t, mine, session=[pw_step(not t), sq_step(t), sq_step(not t)]))
+        out.append(mk_case("session-peewee-same-open", t, mine, session=[pw_step(t), sq_step(t)]))
+        out.append(mk_case("session-peewee-elsewhere-open", t, mine, session=[pw_step(t, file="elsewhere-peewee.db"), sq_step(t)]))
+        out.append(mk_case("session-peewee-elsewhere-untouched", t, mine + other,
+                           session=[pw_step(not t, file="elsewhere-peewee.db", touch=False), sq_step(t), sq_step(not t)]))
+        out.append(mk_case("session-peewee-other-closed", t, mine + other, session=[pw_step(not t, close=True), sq_step(t)]))
+        out.append(mk_case("session-peewee-between", not t, two_stores(rng, t),
+                           session=[sq_step(t), pw_step(t, close=True), sq_step(not t)]))
+    return out
+
+
+def session_cases(rng, n):
+    out = []
+    for _ in range(n):
+        t = rng.random() < 0.5
+        r = rng.random()
+        if r < 0.6:
+            stores = [{"testing": t, "ops": gen_store(rng)}, {"testing": not t, "ops": gen_store(rng)}]
+        elif r < 0.8:
+            stores = [{"testing": t, "ops": gen_store(rng)}]
+        else:
+            stores = [{"testing": not t, "ops": gen_store(rng)}]
+        steps = []
+        profiles = [t, not t] if rng.random() < 0.75 else [t]
+        for p in profiles:
+            k = rng.random()
+            if k < 0.45:
+                steps.append(pw_step(rng.choice([p, not p]), file=rng.choice([None, None, "elsewhere-peewee.db"]),
+                                     touch=rng.random() < 0.7, close=rng.random() < 0.3))
+            if rng.random() < 0.2:
+                steps.append(sq_step(p, custom=f"custom-{len(steps)}.db", close=rng.random() < 0.5))
+            steps.append(sq_step(p, close=rng.random() < 0.4))
+        out.append(mk_case("session-random", steps[-1]["testing"], stores, session=steps))
+    return out
 
 
 def corpus(rng):
@@ -251,48 +360,72 @@ def random_cases(rng, n):
 
 
 def run_cases(cases, tmp, procs=12):
-    """-> per case {"xdg", "built", "before", "listing_before", "mig", "after", "listing_after"}"""
+    """-> per case {"xdg", "built", "before", "listing_before", "mig", "after", "listing_after"} (+ "steps" for a
+    session case).  Small cases go phase by phase (several legacy stores per interpreter); a case with a large
+    bucket has a thread of its own that takes it through all phases beside them."""
     runs = []
     for i, c in enumerate(cases):
         xdg = tempfile.mkdtemp(prefix=f"case{i}-", dir=tmp)
         runs.append({"xdg": xdg})
-    with ThreadPoolExecutor(procs) as pool:
+
+    def pre(i):
         # phase 0: cases that want the sqlite file to exist before the legacy one appears
-        def pre(i):
-            if cases[i]["pre_sqlite"]:
-                child("migrate", {"xdg": runs[i]["xdg"], "testing": cases[i]["new_testing"], "custom": None}, tmp)
-        list(pool.map(pre, range(len(cases))))
-        # phase 1: legacy stores, several cases per interpreter
-        step = max(1, min(8, (len(cases) + procs - 1) // procs))
-        chunks = [list(range(i, min(len(cases), i + step))) for i in range(0, len(cases), step)]
+        if cases[i]["pre_sqlite"]:
+            child("migrate", {"xdg": runs[i]["xdg"], "testing": cases[i]["new_testing"], "custom": None}, tmp)
 
-        def build(idx):
-            return child("build", [{"xdg": runs[i]["xdg"], "stores": cases[i]["stores"]} for i in idx], tmp)
-        for idx, res in zip(chunks, pool.map(build, chunks)):
-            for i, r in zip(idx, res):
-                runs[i]["built"] = r["stores"]
-        for i, c in enumerate(cases):
-            d = data_dir(runs[i]["xdg"])
-            os.makedirs(d, exist_ok=True)
-            for s in c["stray"]:
-                p = os.path.join(d, s.rstrip("/"))
-                if s.endswith("/"):
-                    os.makedirs(p, exist_ok=True)
-                else:
-                    open(p, "w").close()
-            runs[i]["before"] = legacy_prints(runs[i]["xdg"])
-            runs[i]["listing_before"] = listing(runs[i]["xdg"])
+    def build(idx):
+        # phase 1: legacy stores, written by the real PeeweeStorage
+        res = child("build", [{"xdg": runs[i]["xdg"], "stores": cases[i]["stores"]} for i in idx], tmp)
+        for i, r in zip(idx, res):
+            runs[i]["built"] = r["stores"]
 
+    def built(i):
+        d = data_dir(runs[i]["xdg"])
+        os.makedirs(d, exist_ok=True)
+        for s in cases[i]["stray"]:
+            p = os.path.join(d, s.rstrip("/"))
+            if s.endswith("/"):
+                os.makedirs(p, exist_ok=True)
+            else:
+                open(p, "w").close()
+        runs[i]["before"] = legacy_prints(runs[i]["xdg"])
+        runs[i]["listing_before"] = listing(runs[i]["xdg"])
+
+    def mig(i):
         # phase 2: the call under test, one fresh interpreter per case
-        def mig(i):
-            return child("migrate", {"xdg": runs[i]["xdg"], "testing": cases[i]["new_testing"],
-                                     "custom": cases[i]["custom"]}, tmp)
-        for i, r in enumerate(pool.map(mig, range(len(cases)))):
-            runs[i]["mig"] = r
-            runs[i]["after"] = legacy_prints(runs[i]["xdg"])
-            runs[i]["listing_after"] = listing(runs[i]["xdg"])
-            if any(s.get("old_schema") and s["testing"] == cases[i]["new_testing"] for s in cases[i]["stores"]):
-                runs[i]["legacy_after_dump"] = child("dump", {"xdg": runs[i]["xdg"], "testing": cases[i]["new_testing"]}, tmp)
+        if cases[i].get("session") is not None:         # several constructions in that interpreter
+            r = child("session", {"xdg": runs[i]["xdg"], "steps": cases[i]["session"]}, tmp)
+            runs[i]["steps"] = r
+            last = [x for x in r if x["op"] == "sqlite"][-1:]
+            r = last[0] if last else {"exc": None, "buckets": [], "events": [], "raw_buckets": [], "raw_events": [],
+                                      "committed_buckets": 0, "committed_events": 0, "check_listings": []}
+        else:
+            r = child("migrate", {"xdg": runs[i]["xdg"], "testing": cases[i]["new_testing"],
+                                  "custom": cases[i]["custom"]}, tmp)
+        runs[i]["mig"] = r
+        runs[i]["after"] = legacy_prints(runs[i]["xdg"])
+        runs[i]["listing_after"] = listing(runs[i]["xdg"])
+        if any(s.get("old_schema") and s["testing"] == cases[i]["new_testing"] for s in cases[i]["stores"]):
+            runs[i]["legacy_after_dump"] = child("dump", {"xdg": runs[i]["xdg"], "testing": cases[i]["new_testing"]}, tmp)
+
+    def whole(i):
+        pre(i)
+        build([i])
+        built(i)
+        mig(i)
+
+    large = [i for i in range(len(cases)) if case_events(cases[i]) > 1500]
+    rest = [i for i in range(len(cases)) if i not in set(large)]
+    with ThreadPoolExecutor(max(1, len(large))) as own, ThreadPoolExecutor(procs) as pool:
+        big = [own.submit(whole, i) for i in large]
+        list(pool.map(pre, rest))
+        step = max(1, min(8, (len(rest) + procs - 1) // procs))
+        list(pool.map(build, [rest[i:i + step] for i in range(0, len(rest), step)]))
+        for i in rest:
+            built(i)
+        list(pool.map(mig, rest))
+        for f in big:
+            f.result()
     return runs
 
 
@@ -306,12 +439,19 @@ class CaseLabels:
         self.strs.reps.append("")
         self.datas = common.Labels()
         self.datas.reps.append({})
+        self._dcache = {}
 
     def s(self, v):
         return None if v is None else self.strs.label(v)
 
     def d(self, v):
-        return self.datas.label(v if v else {})
+        v = v if v else {}
+        # shortcut for large buckets: equal JSON text (types included) => equal value => same label
+        key = json.dumps(v, sort_keys=True)
+        hit = self._dcache.get(key)
+        if hit is None:
+            hit = self._dcache[key] = self.datas.label(v)
+        return hit
 
 
 def created_us(s):
@@ -434,6 +574,44 @@ def in_precondition(case, run):
     return pw_file(t) in run["listing_before"]
 
 
+def expand(case, run):
+    """-> [(case, run) ..]: one entry per SqliteStorage construction.  A session case (several constructions in
+    one interpreter) yields one sub-case per sqlite step, with the directory listing / legacy fingerprints taken
+    right before and after that step: the property speaks about each first creation by itself, so every step is
+    judged (model and oracle) exactly like a construction in a fresh interpreter."""
+    if case.get("session") is None:
+        return [(case, run)]
+    out = []
+    for k, (step, res) in enumerate(zip(case["session"], run["steps"])):
+        if step["op"] != "sqlite":
+            continue
+        t = step["testing"]
+        sc = mk_case(case["kind"], t, case["stores"], custom=step.get("custom"),
+                     pre_sqlite=sq_file(t) in res["listing_before"], stray=case["stray"])
+        sc["step"] = k
+        sr = {"xdg": run["xdg"], "built": run["built"], "mig": res, "before": res["before"], "after": res["after"],
+              "listing_before": res["listing_before"], "listing_after": res["listing_after"]}
+        out.append((sc, sr))
+    return out
+
+
+def oracle_case(case, run):
+    return [(sig, (f"[step {sc['step']}: SqliteStorage(testing={sc['new_testing']})"
+                   f"{'' if sc['custom'] is None else ', custom path'} after {describe_steps(case, sc['step'])}] " if "step" in sc else "") + text)
+            for sc, sr in expand(case, run) for sig, text in oracle(sc, sr)]
+
+
+def describe_steps(case, k):
+    out = []
+    for s in case["session"][:k]:
+        if s["op"] == "sqlite":
+            out.append(f"SqliteStorage(testing={s['testing']}{', filepath=..' if s.get('custom') else ''})")
+        else:
+            out.append(f"PeeweeStorage({'testing=' + str(s['testing']) if not s.get('file') else 'filepath=' + s['file']})"
+                       + ("" if s.get("touch") else " unread") + (" closed" if s.get("close") else " left open"))
+    return ("in the same process: " + ", ".join(out)) if out else "nothing else in the process"
+
+
 def oracle(case, run):
     """-> list of (signature, text) violations of the property statement"""
     bad = []
@@ -461,7 +639,8 @@ def oracle(case, run):
     new_b = dict((k, v) for k, v in m["buckets"])
     new_e = dict((k, v) for k, v in m["events"])
     if pre:
-        dump = mine[0]["dump"]
+        # (a legacy file of this profile that no build step wrote was created empty by an earlier PeeweeStorage)
+        dump = mine[0]["dump"] if mine else {"buckets": [], "events": []}
         old_e = dict((k, v) for k, v in dump["events"])
         for k, meta in dump["buckets"]:
             if k not in new_b:
@@ -602,25 +781,56 @@ def run_name_stream(ck, tmp, have_driver):
 # ---------------------------------------------------------------------------
 
 
-def evaluate(ck, cases, runs, have_driver, record=True):
-    """compare with the model, run the oracle; returns per case list of oracle violations"""
+def model_limit(ck):
+    """the extracted store models are quadratic in the bucket size (insertion sort, append): the row-by-row
+    comparison with the model is made for cases up to this many events, larger ones are judged by the oracle"""
+    return 2500 if ck.tier == "quick" else 6500
+
+
+def evaluate(ck, top_cases, top_runs, have_driver, record=True):
+    """compare with the model, run the oracle; returns per (top-level) case the list of oracle violations"""
+    cases, runs, parents = [], [], []
+    for k, (c, r) in enumerate(zip(top_cases, top_runs)):
+        for sc, sr in expand(c, r):
+            cases.append(sc)
+            runs.append(sr)
+            parents.append(k)
+        if record and c.get("session") is not None:
+            ck.count("sessions (several constructions in one interpreter)")
+            ck.count("session-steps", len(c["session"]))
     labs = [CaseLabels() for _ in cases]
     wires, univs = [], []
+    tied = []
     for c, r, lab in zip(cases, runs, labs):
+        if case_events(c) > model_limit(ck):
+            wires.append(None)
+            univs.append(None)
+            continue
         w, u = model_case(c, r, lab)
         wires.append(w)
         univs.append(u)
+        tied.append(len(wires) - 1)
     verdicts = []
-    models = common.run_driver("C14", wires) if have_driver else [None] * len(cases)
+    top_verdicts = [[] for _ in top_cases]
+    models = [None] * len(cases)
+    if have_driver:
+        for j, mo in zip(tied, common.run_driver("C14", [wires[j] for j in tied])):
+            models[j] = mo
     created = {}
     if have_driver:
         for t, names in zip((True, False), common.run_driver("C14", [sx([5, True]), sx([5, False])])):
             created[t] = ["".join(chr(x) for x in n) for n in names]
-    for c, r, lab, u, w, mo in zip(cases, runs, labs, univs, wires, models):
+    for c, r, lab, u, w, mo, pk in zip(cases, runs, labs, univs, wires, models, parents):
         bad = oracle(c, r)
         verdicts.append(bad)
+        top_verdicts[pk] += bad
         if not record:
             continue
+        top = top_cases[pk]
+        where = ""
+        if "step" in c:
+            where = (f"step {c['step']}: SqliteStorage(testing={c['new_testing']}"
+                     f"{'' if c['custom'] is None else ', filepath=..'}) after {describe_steps(top, c['step'])}; ")
         m = r["mig"]
         migrated = any("Migrating database" in x for x in m.get("migration_log", []))
         n_events = len(m.get("raw_events") or [])
@@ -628,6 +838,11 @@ def evaluate(ck, cases, runs, have_driver, record=True):
         ck.count("profile:" + ("testing" if c["new_testing"] else "normal"))
         ck.count("migration-ran" if migrated else "migration-not-run")
         ck.count("events-migrated", n_events)
+        for lim in (1000, 5000, 10000, 20000, 50000):
+            if m["exc"] is None and migrated and any(len(v) > lim for _, v in m["events"]):
+                ck.count(f"migrated-bucket-larger-than-{lim}")
+        if w is None:
+            ck.count("oracle-only (bucket too large for the extracted model's quadratic sort)")
         ck.count("buckets-migrated", len(m.get("raw_buckets") or []))
         if m["exc"]:
             ck.count("constructor-raised:" + m["exc"])
@@ -648,8 +863,8 @@ def evaluate(ck, cases, runs, have_driver, record=True):
                        "new_buckets": m["buckets"], "new_events": m["events"], "legacy_sha_unchanged": r["before"] == r["after"] or
                        all(r["after"].get(f, {}).get("sha256") == v["sha256"] for f, v in r["before"].items())})
         for sig, text in bad:
-            ck.failing_input(sig, f"[{c['kind']}, testing={c['new_testing']}] {text}",
-                             {"case": c, "listing_before": r["listing_before"], "observed": text,
+            ck.failing_input(sig, f"[{c['kind']}, {where}testing={c['new_testing']}] {text}",
+                             {"case": top, "step": c.get("step"), "listing_before": r["listing_before"], "observed": text,
                               "legacy_dump": [s["dump"] for s in r["built"]][:1] if n_events < 30 else "(large)",
                               "new_buckets": m.get("buckets"), "rerun": REPLAY_HINT})
         if mo is not None:
@@ -682,23 +897,47 @@ def evaluate(ck, cases, runs, have_driver, record=True):
                 if m["check_listings"] != want:
                     mism = f"data dir as listed by detect_db_files: impl {m['check_listings']}, model {want}"
             if mism:
-                ck.disagreement("migrate", f"[{c['kind']}, testing={c['new_testing']}] {mism}",
-                                {"case": c, "listing_before": r["listing_before"], "mismatch": mism})
-    return verdicts
+                ck.disagreement("migrate", f"[{c['kind']}, {where}testing={c['new_testing']}] {mism}",
+                                {"case": top, "step": c.get("step"), "listing_before": r["listing_before"], "mismatch": mism})
+    return top_verdicts
 
 
 def shrink_case(case, tmp):
     """greedy: drop ops of the legacy store while the oracle still reports a violation"""
     def fails(c):
         runs = run_cases([c], tmp, procs=1)
-        return bool(oracle(c, runs[0]))
+        return bool(oracle_case(c, runs[0]))
     cur = json.loads(json.dumps(case))
+    # large generated buckets first: bisect their size (the first n events do not depend on n)
+    for si in range(len(cur["stores"])):
+        for k, op in enumerate(cur["stores"][si]["ops"]):
+            if op[0] != "insert_gen":
+                continue
+            lo, hi = 0, op[2]["n"]
+            for _ in range(9):
+                if hi - lo <= 1:
+                    break
+                mid = (lo + hi) // 2
+                c = json.loads(json.dumps(cur))
+                c["stores"][si]["ops"][k][2]["n"] = mid
+                if fails(c):
+                    hi = mid
+                else:
+                    lo = mid
+            op[2]["n"] = hi
+    large = case_events(cur) > 1500
+    if cur.get("session") is not None:
+        def still_steps(steps):
+            c = json.loads(json.dumps(cur))
+            c["session"] = steps
+            return any(s["op"] == "sqlite" for s in steps) and fails(c)
+        cur["session"] = common.shrink_list(cur["session"], still_steps, max_steps=10)
     for si in range(len(cur["stores"])):
         def still(ops, si=si):
             c = json.loads(json.dumps(cur))
             c["stores"][si]["ops"] = ops
             return fails(c)
-        cur["stores"][si]["ops"] = common.shrink_list(cur["stores"][si]["ops"], still, max_steps=25)
+        cur["stores"][si]["ops"] = common.shrink_list(cur["stores"][si]["ops"], still, max_steps=6 if large else 25)
         for k, op in enumerate(cur["stores"][si]["ops"]):
             if op[0] == "insert_many" and len(op[2]) > 1:
                 def still_ev(evs, si=si, k=k):
@@ -718,7 +957,7 @@ def replay(path):
     tmp = tempfile.mkdtemp(prefix="awverif-c14-")
     try:
         runs = run_cases([case], tmp, procs=1)
-        bad = oracle(case, runs[0])
+        bad = oracle_case(case, runs[0])
         print(json.dumps({"listing_before": runs[0]["listing_before"], "listing_after": runs[0]["listing_after"],
                           "new_buckets": runs[0]["mig"].get("buckets"), "exc": runs[0]["mig"]["exc"],
                           "n_events_new": len(runs[0]["mig"].get("raw_events") or []),
@@ -734,19 +973,24 @@ def main(argv=None):
         return replay(argv[1])
     ck = Check("C14", argv)
     tmp = common.setup_impl_env()
+    n_random = 110 if ck.tier == "quick" else 6000
+    # large buckets first (their interpreters run beside the many small cases), then the boundary corpus, the
+    # sessions (several constructions in one interpreter) and the random stores
+    cases = (big_cases(ck.rng, ck.tier) + corpus(ck.rng) + session_corpus(ck.rng)
+             + session_cases(ck.rng, 14 if ck.tier == "quick" else 600) + random_cases(ck.rng, n_random))
+    work = tempfile.mkdtemp(prefix="c14-", dir=tmp)
+    batch = 400
+    # the implementation runs of the first batch (child interpreters only) go on while the proofs are checked
+    ahead = ThreadPoolExecutor(1)
+    first_runs = ahead.submit(run_cases, cases[:batch], work)
     ck.run_witnesses(["w10", "w19"])
     ck.prove(extra_targets=["Bridge/BridgeMigration.v"],
              gen_kernels=["migration_loop", "migration_names", "migration_init"])
     have_driver = ck.driver()
-
-    n_random = 110 if ck.tier == "quick" else 6000
-    cases = corpus(ck.rng) + random_cases(ck.rng, n_random)
-    work = tempfile.mkdtemp(prefix="c14-", dir=tmp)
-    batch = 400
     first_bad = None
     for lo in range(0, len(cases), batch):
         part = cases[lo:lo + batch]
-        runs = run_cases(part, work)
+        runs = first_runs.result() if lo == 0 else run_cases(part, work)
         verdicts = evaluate(ck, part, runs, have_driver)
         if first_bad is None:
             for c, v in zip(part, verdicts):
@@ -759,14 +1003,14 @@ def main(argv=None):
         try:
             small = shrink_case(first_bad, work)
             runs = run_cases([small], work, procs=1)
-            bad = oracle(small, runs[0])
+            bad = oracle_case(small, runs[0])
             if bad:
                 sig, text = bad[0]
                 ck.violations.insert(0, (sig, f"[shrunk, testing={small['new_testing']}] {text}",
                                          {"case": small, "listing_before": runs[0]["listing_before"], "observed": text,
-                                          "legacy_dump": [s["dump"] for s in runs[0]["built"]],
+                                          "legacy_dump": [s["dump"] for s in runs[0]["built"]] if case_events(small) < 200 else "(large)",
                                           "new_buckets": runs[0]["mig"].get("buckets"),
-                                          "new_events": runs[0]["mig"].get("events"),
+                                          "new_events": runs[0]["mig"].get("events") if case_events(small) < 200 else "(large)",
                                           "rerun": REPLAY_HINT}))
         except Exception as ex:  # noqa: BLE001 -- shrinking is best effort
             ck.log.append(f"shrink failed: {ex}")
